@@ -198,6 +198,28 @@ inline SplineCase<DIM> gen_spline_case(Tape& t, int s, double maxratio, int nmax
   return c;
 }
 
+
+// natural magnitude of ENERGY gradients built from the data magnitude alone (floors for comparisons when the energy itself is at
+// rounding level, e.g. data sampled from a low-degree polynomial):  dE/dP_d ~ Cs*M_d/Tmin^(2s-1),  dE/dbc_m ~ that * Tmax^m,
+// dE/dT ~ Cs*sum_d M_d^2/Tmin^(2s),  Cs = ff(2s-1,s)^2
+template <int DIM>
+inline void energy_nat(const SplineCase<DIM>& c, std::vector<ld>& natP, ld& natT, ld* Tmax_out = nullptr) {
+  const int S = c.s, N = c.N;
+  ld Tmin = c.T[0], Tmax = c.T[0];
+  for (double x : c.T) { Tmin = std::min<ld>(Tmin, x); Tmax = std::max<ld>(Tmax, x); }
+  ld Cs = ff(2 * S - 1, S) * ff(2 * S - 1, S), sumM2 = 0;
+  natP.assign(DIM, 0);
+  for (int d = 0; d < DIM; ++d) {
+    ld Md = 0;
+    for (int i = 0; i <= N; ++i) Md = std::max(Md, fabsl((ld)c.P(i, d)));
+    for (int m = 1; m < S; ++m) { Md = std::max(Md, fabsl((ld)c.bc_field(false, m)(d)) * RefSpline::ipow(c.T[0], m)); Md = std::max(Md, fabsl((ld)c.bc_field(true, m)(d)) * RefSpline::ipow(c.T[N - 1], m)); }
+    natP[d] = Cs * Md / RefSpline::ipow(Tmin, 2 * S - 1);
+    sumM2 += Md * Md;
+  }
+  natT = Cs * sumM2 / RefSpline::ipow(Tmin, 2 * S);
+  if (Tmax_out) *Tmax_out = Tmax;
+}
+
 // ---- building library objects
 template <int DIM, int S>
 inline typename SplineOf<DIM, S>::type build_spline(const SplineCase<DIM>& c) {
